@@ -68,6 +68,12 @@ check("C19",
       "TLA+ spec (QStats/QTomo, complete multinomial enumeration) model-checked with TLC; replay of TLC-emitted exact moments into the implementation",
       "DESIGN.md §4 C19")
 
+check("C07",
+      "TLC (MC_C07 over QIndex) enumerates, for 2-3 subsystems with dimensions in {2,3} (four qubits in the quick tier, four mixed subsystems in thorough), EVERY order of the arguments and EVERY grouping of the pairwise products and checks that folding the tree with the pairwise merge of one-hot objects lands at the canonical Kronecker index (ascending names, row-major radices d^2), that this index map is a bijection and equals the mixed-radix serial index. Binding: for every emitted configuration real factor objects on single named subsystems carry seeded generic entries, the tree is evaluated through pairwise tensor_product calls (and the n-ary call), and every entry of the result must be the product the canonical layout names - states, POVMs (outcome layout by ascending name), gates, measurement processes and mixed gate/measurement-process products (outcome layout as the reported shape says), state ensembles, matrix bases; product statistics (qubit x qubit, qubit x qutrit in both name orders) and the qutrit -> two-qubit embedding (physicality and all statistics) on the library's physical catalogue.",
+      "Trusted: QIndex!KronIndex as the canonical layout; HS-matrix kinds restricted to total dimension^2 <= 64 (the library builds dense vec-permutation matrices).",
+      "TLA+ spec (QIndex Kronecker layout, all orders x groupings) model-checked with TLC; replay of every configuration into tensor_product with labelled factors",
+      "DESIGN.md §4 C07")
+
 ALL = ["C%02d" % i for i in range(1, 21)]
 
 def main():
